@@ -7,6 +7,7 @@
    (Corr/EffectsCorr.v: check_C07). *)
 From BT Require Import Base.Prelude Base.Str Heap.Forest Heap.Effects Heap.EffectsProofs
      Spec.PForest Spec.PC07 Corr.EffectsCorr.
+From BT Require Heap.Dag.
 
 (* ------------------------------------------------------------------------------------------ *)
 (* primitives, deep copy, independence *)
@@ -196,6 +197,53 @@ Proof. exact sk_shallow_spec. Qed.
 Print Assumptions C07_shallow_copy_input_unchanged.
 
 (* ------------------------------------------------------------------------------------------ *)
+(* DAGNode (dagnode.py:573-600) on the DAG heap of Heap/Dag.v *)
+
+(* DAGNode.copy(): fresh ids for the whole connected part (through parents and children),
+   isomorphic links, no link back, every source entry unchanged *)
+Theorem C07_dag_copy_fresh_equal : forall s r,
+  let s' := ddeep_copy s r in
+  (forall x, In x (dcomp s r) -> Dag.dsize s <= dphi s r x < Dag.dsize s')
+  /\ (forall x y, In x (dcomp s r) -> dphi s r x = dphi s r y -> x = y)
+  /\ (forall x, In x (dcomp s r) ->
+        Dag.parents s' (dphi s r x) = map (dphi s r) (Dag.parents s x)
+        /\ Dag.children s' (dphi s r x) = map (dphi s r) (Dag.children s x)
+        /\ Dag.dname s' (dphi s r x) = Dag.dname s x)
+  /\ dclosed (ge (Dag.dsize s)) s'
+  /\ (forall x, x < Dag.dsize s -> dsame_at s s' x).
+Proof. exact dag_copy_fresh_equal. Qed.
+Print Assumptions C07_dag_copy_fresh_equal.
+
+Theorem C07_dag_copy_input_unchanged : forall s start x,
+  x < Dag.dsize s -> dsame_at s (fst (dsk_copy s start)) x.
+Proof. exact dag_copy_input_unchanged. Qed.
+Print Assumptions C07_dag_copy_input_unchanged.
+Theorem C07_dag_copy_result_fresh : forall s start,
+  Dag.dsize s <= snd (dsk_copy s start) /\ dclosed (ge (Dag.dsize s)) (fst (dsk_copy s start)).
+Proof. exact dag_copy_result_fresh. Qed.
+Print Assumptions C07_dag_copy_result_fresh.
+
+(* dag_to_dict / dag_to_dataframe copy first *)
+Theorem C07_dag_export_input_unchanged : forall s start x,
+  x < Dag.dsize s -> dsame_at s (dsk_export s start) x.
+Proof. exact dag_export_input_unchanged. Qed.
+Print Assumptions C07_dag_export_input_unchanged.
+
+Theorem C07_dag_shallow_copy_input_unchanged : forall s x y,
+  y < Dag.dsize s -> dsame_at s (fst (dshallow_copy s x)) y.
+Proof. exact dag_shallow_input_unchanged. Qed.
+Print Assumptions C07_dag_shallow_copy_input_unchanged.
+
+(* any later `dstep` of Dag.v (parents / children assignment with every guard and rollback path,
+   del children, del item, shifts) whose operands lie in a link-closed region A leaves a disjoint
+   region B pointwise unchanged and keeps A closed *)
+Theorem C07_dag_independence : forall (A B : region) cfg s o,
+  (forall x, A x = true -> B x = false) -> dclosed A s -> dop_in A o = true ->
+  (forall x, B x = true -> dsame_at s (fst (Dag.dstep cfg s o)) x) /\ dclosed A (fst (Dag.dstep cfg s o)).
+Proof. exact dag_independence. Qed.
+Print Assumptions C07_dag_independence.
+
+(* ------------------------------------------------------------------------------------------ *)
 (* the conclusions above are what the check tests: on the model's own state, "unchanged below n"
    makes the observation predicate sig_eqb true, and a fresh result makes disjoint_ids true *)
 
@@ -308,3 +356,22 @@ Example C07_clone_tree_binary_slots_refuted :
   let t := RT 0 [49%N] [] 0 [None; Some (RT 1 [50%N] [] 0 [None; None])] in
   same_tree (compact t) t = false /\ part_of (compact t) t = true.
 Proof. vm_compute. split; reflexivity. Qed.
+
+(* DAG: a(0), b(1) -> c(2) -> d(3), a -> d.  Copying from c copies all four nodes. *)
+Definition ex_dag : Dag.dag :=
+  Dag.mkdag 4 (fun x => match x with 2 => [0; 1] | 3 => [2; 0] | _ => [] end)
+            (fun x => match x with 0 => [2; 3] | 1 => [2] | 2 => [3] | _ => [] end)
+            (fun x => [N.of_nat (97 + x)]).
+Example ex_dag_copy :
+  let '(s', r) := dsk_copy ex_dag 2 in
+  Dag.dsize s' = 8 /\ dcomp ex_dag 2 = [2; 0; 1; 3] /\ r = 4
+  /\ Dag.parents s' r = [5; 6] /\ Dag.children s' r = [7] /\ Dag.parents s' 7 = [4; 5]
+  /\ Dag.parents s' 2 = [0; 1].
+Proof. vm_compute. repeat split. Qed.
+
+(* K4-C07 for DAGNode.__copy__ (dagnode.py:586-600): the shallow copy's parents and children are the
+   input's node objects *)
+Example C07_dag_shallow_copy_refuted :
+  let '(s', r) := dshallow_copy ex_dag 2 in
+  Dag.parents s' r = [0; 1] /\ Dag.children s' r = [3] /\ Dag.children s' 0 = [2; 3].
+Proof. vm_compute. repeat split. Qed.
